@@ -15,10 +15,12 @@ let parse_handle h =
   else Kth (nat_of_int (int_of_string (String.sub h 1 (String.length h - 1))))
 
 (* names: array of (index, coq string) *)
-let parse_ops deliver names (f : string) : op list =
+let rec parse_ops deliver names (f : string) : op list =
+  let p = parse_ops_from (ref 0) deliver names in
+  List.concat_map p (if f = "-" then [] else split ',' f)
+and parse_ops_from tag deliver names : string -> op list =
   let name i = names.(i) in
-  let tag = ref 0 in
-  List.map (fun o ->
+  (fun o -> [
     let kind = o.[0] in
     let rest = split ':' (String.sub o 1 (String.length o - 1)) in
     let mb () = name (int_of_string (List.nth rest 0)) in
@@ -34,7 +36,7 @@ let parse_ops deliver names (f : string) : op list =
     | 'r' -> Remove (mb (), parse_handle (List.nth rest 1))
     | 'p' -> Purge (mb ())
     | 'v' -> Visit
-    | _ -> failwith ("bad op " ^ o)) (if f = "-" then [] else split ',' f)
+    | _ -> failwith ("bad op " ^ o)])
 
 let view_tok ((k, m) : nat * msg) =
   Printf.sprintf "%d.%d.%d.%d.%s" (int_of_nat k) (int_of_z m.m_date) (int_of_n m.m_tag) (int_of_n m.m_size)
@@ -94,6 +96,31 @@ let () =
            abstract state: the walk hands over exactly min k (number of non-empty mailboxes) mailboxes,
            each with its listing, never calls the visitor again, and (mut) exactly those lose their oldest *)
         let ops_field = ops in
+        let reopened = kind = "file" && List.exists (fun o -> String.length o > 0 && o.[0] = 'o') (if ops = "-" then [] else split ',' ops) in
+        if reopened then begin
+          (* o<cap>: the file store is re-opened on the same path with another cap. The history is cut into
+             segments, each run with its own cap from the state the previous one left
+             (FileStore.run_file_segs / StoreSpec run_spec_segs; theorem file_refines_spec_reopened) *)
+          let all = parse_ops_from (ref 0) deliver names in
+          let rec cut cur acc = function
+            | [] -> List.rev ((cur, List.rev acc) :: [])
+            | o :: rest when String.length o > 0 && o.[0] = 'o' ->
+                ((cur, List.rev acc)) :: cut (int_of_string (String.sub o 1 (String.length o - 1))) [] rest
+            | o :: rest -> cut cur (o :: acc) rest in
+          let segs_raw = cut (int_of_string cap) [] (split ',' ops) in
+          let segs = List.map (fun (c, os) ->
+            ({ c_cap = nat_of_int c; c_max = n_of_int 0 }, List.concat_map (fun o -> all o) os)) segs_raw in
+          let render rs = String.concat " O " (List.map (fun r -> String.concat " " (tokens name_index r)) rs) in
+          let flat rs = List.filter (fun t -> t <> "") (split ' ' (render rs)) in
+          let mtoks = flat (run_file_segs (file_init [], []) segs) in
+          let stoks = flat (run_spec_segs spec_init segs) in
+          let rec fd i st im = match st, im with
+            | [], [] -> None
+            | s :: st', x :: im' -> if s = x then fd (i + 1) st' im' else Some (Printf.sprintf "fail:op%d:reopened:impl=%s:spec=%s" i x s)
+            | _ :: _, [] -> Some (Printf.sprintf "fail:op%d:missing-observation" i)
+            | [], x :: _ -> Some (Printf.sprintf "fail:op%d:extra-observation:%s" i x) in
+          Mlutil.print_model mtoks (match fd 0 stoks outs with Some r -> r | None -> "ok")
+        end else
         let (ops, wop) =
           let l = if ops = "-" then [] else split ',' ops in
           match List.rev l with
